@@ -46,7 +46,7 @@ var _ = conv.LS{}
 func intp(v int) *int { return &v }
 
 func mkS(set int) ms.S {
-	s := ms.S{A: 11, B: 12, C: "c-src", D: 14, N: ms.Nest{X: 21, Y: 22, Z: "nz-src", In: ms.Inner{W: 23, V: 24}}, Base: ms.Base{E1: 41, E2: "e2-src"}, Q: 51, R: "r-src", L: []int{71, 72, 73}, M: map[string]int{"k1": 81, "k2": 82}, L2: []int{91, 92, 93}}
+	s := ms.S{A: 11, B: 12, C: "c-src", D: 14, N: ms.Nest{X: 21, Y: 22, Z: "nz-src", In: ms.Inner{W: 23, V: 24}}, Base: ms.Base{E1: 41, E2: "e2-src"}, Q: 51, R: "r-src", L: []int{71, 72, 73}, M: map[string]int{"k1": 81, "k2": 82}, L2: []int{91, 92, 93}, PP: &ms.Nest{X: 61, Y: 62, Z: "ppz-src", In: ms.Inner{W: 63, V: 64}}}
 	if set == 0 {
 		s.P = &ms.Nest{X: 31, Y: 32, Z: "pz-src", In: ms.Inner{W: 33, V: 34}}
 	}
@@ -54,7 +54,7 @@ func mkS(set int) ms.S {
 }
 
 func mkLS(set int) conv.LS {
-	s := conv.LS{A: 11, B: 12, C: "c-src", D: 14, N: ms.Nest{X: 21, Y: 22, Z: "nz-src", In: ms.Inner{W: 23, V: 24}}, Base: ms.Base{E1: 41, E2: "e2-src"}, Q: 51, R: "r-src", L: []int{71, 72, 73}, M: map[string]int{"k1": 81, "k2": 82}, L2: []int{91, 92, 93}}
+	s := conv.LS{A: 11, B: 12, C: "c-src", D: 14, N: ms.Nest{X: 21, Y: 22, Z: "nz-src", In: ms.Inner{W: 23, V: 24}}, Base: ms.Base{E1: 41, E2: "e2-src"}, Q: 51, R: "r-src", L: []int{71, 72, 73}, M: map[string]int{"k1": 81, "k2": 82}, L2: []int{91, 92, 93}, PP: &ms.Nest{X: 61, Y: 62, Z: "ppz-src", In: ms.Inner{W: 63, V: 64}}}
 	if set == 0 {
 		s.P = &ms.Nest{X: 31, Y: 32, Z: "pz-src", In: ms.Inner{W: 33, V: 34}}
 	}
@@ -62,12 +62,12 @@ func mkLS(set int) conv.LS {
 }
 
 func mkD() md.D {
-	return md.D{A: "pre-A", B: 901, C: "pre-C", D: "pre-D", N: md.Nest{X: "pre-NX", Y: 902, Z: "pre-NZ", In: md.Inner{W: "pre-NW", V: 905}}, P: &md.Nest{X: "pre-PX", Y: 904, Z: "pre-PZ"}, Base: md.Base{E1: "pre-E1", E2: "pre-E2"}, Q: 903, R: "pre-R", L: []string{"pre-L"}, M: map[string]string{"pre": "M"}, G: 907, L2: []int64{908}}
+	return md.D{A: "pre-A", B: 901, C: "pre-C", D: "pre-D", N: md.Nest{X: "pre-NX", Y: 902, Z: "pre-NZ", In: md.Inner{W: "pre-NW", V: 905}}, P: &md.Nest{X: "pre-PX", Y: 904, Z: "pre-PZ"}, Base: md.Base{E1: "pre-E1", E2: "pre-E2"}, Q: 903, R: "pre-R", L: []string{"pre-L"}, M: map[string]string{"pre": "M"}, G: 907, L2: []int64{908}, H: 909, HS: "pre-HS"}
 }
 
 // mkSD: a source of the destination's own type (methods with the same type on both sides)
 func mkSD(set int) md.D {
-	s := md.D{A: "a-src", B: 12, C: "c-src", D: "d-src", N: md.Nest{X: "nx-src", Y: 22, Z: "nz-src", In: md.Inner{W: "nw-src", V: 24}}, Base: md.Base{E1: "e1-src", E2: "e2-src"}, Q: 51, R: "r-src", L: []string{"l1-src", "l2-src", "l3-src"}, M: map[string]string{"k1": "m1-src", "k2": "m2-src"}, G: 61, L2: []int64{91, 92, 93}}
+	s := md.D{A: "a-src", B: 12, C: "c-src", D: "d-src", N: md.Nest{X: "nx-src", Y: 22, Z: "nz-src", In: md.Inner{W: "nw-src", V: 24}}, Base: md.Base{E1: "e1-src", E2: "e2-src"}, Q: 51, R: "r-src", L: []string{"l1-src", "l2-src", "l3-src"}, M: map[string]string{"k1": "m1-src", "k2": "m2-src"}, G: 61, L2: []int64{91, 92, 93}, H: 65, HS: "hs-src"}
 	if set == 0 {
 		s.P = &md.Nest{X: "px-src", Y: 32, Z: "pz-src", In: md.Inner{W: "pw-src", V: 34}}
 	}
@@ -75,7 +75,7 @@ func mkSD(set int) md.D {
 }
 
 func mkLD() conv.LD {
-	return conv.LD{A: "pre-A", B: 901, C: "pre-C", D: "pre-D", N: md.Nest{X: "pre-NX", Y: 902, Z: "pre-NZ", In: md.Inner{W: "pre-NW", V: 905}}, P: &md.Nest{X: "pre-PX", Y: 904, Z: "pre-PZ"}, Base: md.Base{E1: "pre-E1", E2: "pre-E2"}, Q: 903, R: "pre-R", L: []string{"pre-L"}, M: map[string]string{"pre": "M"}, G: 907, L2: []int64{908}}
+	return conv.LD{A: "pre-A", B: 901, C: "pre-C", D: "pre-D", N: md.Nest{X: "pre-NX", Y: 902, Z: "pre-NZ", In: md.Inner{W: "pre-NW", V: 905}}, P: &md.Nest{X: "pre-PX", Y: 904, Z: "pre-PZ"}, Base: md.Base{E1: "pre-E1", E2: "pre-E2"}, Q: 903, R: "pre-R", L: []string{"pre-L"}, M: map[string]string{"pre": "M"}, G: 907, L2: []int64{908}, H: 909, HS: "pre-HS"}
 }
 
 `)
